@@ -768,6 +768,17 @@ impl ZmtpEngine {
       }
 
       let is_more = msg.is_more();
+      if self.partial_batch.len() >= FrameBatch::MAX_FRAMES {
+        // One more frame would overflow the batch (and panic): refuse the message.
+        self.phase = ZmtpPhase::Closed;
+        out
+          .app_actions
+          .push(AppAction::PeerError(ZmqError::ProtocolViolation(format!(
+            "Multipart message exceeds {} frames",
+            FrameBatch::MAX_FRAMES
+          ))));
+        return;
+      }
       self.partial_batch.push(msg);
       if !is_more {
         let batch = std::mem::replace(&mut self.partial_batch, FrameBatch::new());
